@@ -54,7 +54,7 @@ PROPS = {
         "assumptions": [],
     },
     "C09": {
-        "lean_modules": ["StimModel.Props.C09", "StimModel.Core.R8", "StimModel.Core.Uint", "StimModel.Props.C09b", "StimModel.Props.C09c"],
+        "lean_modules": ["StimModel.Props.C09", "StimModel.Core.R8", "StimModel.Core.Uint", "StimModel.Props.C09b", "StimModel.Props.C09c", "StimModel.Props.C09d"],
         "builds": ["asan"],
         "areas": [
             {"area": "fmt", "n": {"quick": 1600, "thorough": 40000}, "builds": ["asan"]},
@@ -173,7 +173,7 @@ PROPS = {
         "assumptions": [],
     },
     "C08": {
-        "lean_modules": ["StimModel.Props.C08", "StimModel.Props.C08b", "StimModel.Props.C08c"],
+        "lean_modules": ["StimModel.Props.C08", "StimModel.Props.C08b", "StimModel.Props.C08c", "StimModel.Props.C08d", "StimModel.Props.C08e"],
         "builds": ["asan"],
         "areas": [
             {"area": "dem", "n": {"quick": 1500, "thorough": 30000}, "builds": ["asan"], "replayable": True},
@@ -315,7 +315,8 @@ PROPS = {
         "assumptions": ["std::mt19937_64 seeded from the case PRNG behaves as an ideal source"],
     },
     "C07": {
-        "lean_modules": ["StimModel.Props.C07", "StimModel.Props.C07b", "StimModel.Props.C07c"],
+        "lean_modules": ["StimModel.Props.C07", "StimModel.Props.C07b", "StimModel.Props.C07c", "StimModel.Props.C07d",
+                         "StimModel.Props.C07e", "StimModel.Props.C07f", "StimModel.Props.C07g", "StimModel.Props.C07h"],
         "builds": ["asan"],
         "areas": [
             {"area": "text", "n": {"quick": 800, "thorough": 16000}, "replayable": True, "builds": ["asan"]},
